@@ -1,8 +1,8 @@
 (* C08 — packet identifiers: unique while in use, released exactly once, never leaked.
    Statements only; proofs in Conn/IdsQuota.v (on top of the allocator refinement of C20), Conn/WfInv.v and
-   Conn/Own.v, Conn/OwnFrame.v, Conn/OwnStep.v (the ownership invariant).
+   Conn/Own.v, Conn/OwnFrame.v, Conn/OwnStep.v, Conn/OwnUndet.v (the ownership invariant).
    Nothing else may be added to this file. *)
-From MQ Require Import Base.Prelude Alloc.Alloc Alloc.AllocProofs Conn.Types Conn.ConnRecord Conn.Step Conn.Run Conn.IdsQuota Conn.WfInv Conn.Own Conn.OwnFrame Conn.OwnStep.
+From MQ Require Import Base.Prelude Alloc.Alloc Alloc.AllocProofs Conn.Types Conn.ConnRecord Conn.Step Conn.Run Conn.IdsQuota Conn.WfInv Conn.Own Conn.OwnFrame Conn.OwnStep Conn.OwnUndet.
 
 (* WFpid (the interval allocator's representation invariant over [1, idmax]) holds initially and
    is re-established by each of the id-management calls below. *)
@@ -108,6 +108,26 @@ Theorem C08_fresh_ownership_invariant : forall g v ops,
 Proof. exact fresh_OWN_invariant. Qed.
 Print Assumptions C08_fresh_ownership_invariant.
 
+(* AN ENDPOINT OF UNDETERMINED VERSION (a server created as Undetermined adopts the version of its first
+   CONNECT).  [OWNU g c]: OWN, and the store is empty while the version is undetermined.  Every call keeps
+   it when, in addition, packets handed to send() and restore_packets carry a real protocol version
+   ([undet_op_ok]); the version stays the same or is adopted.  So OWN holds in every state of every such
+   history of a freshly constructed object of ANY version. *)
+Theorem C08_step_keeps_ownership_any_version : forall g c o,
+  OWNU g c -> own_op_ok c o -> undet_op_ok c o ->
+  match step g c o with
+  | Ok (c', _, _) => OWNU g c' /\ (c_version c' = c_version c \/ c_version c = VUndet)
+  | Panic _ => True
+  end.
+Proof. exact step_keeps_OWNU. Qed.
+Print Assumptions C08_step_keeps_ownership_any_version.
+
+Theorem C08_fresh_ownership_invariant_any_version : forall g v ops,
+  1 <= g_idmax g -> ownu_history_ok g (conn_new g v) ops ->
+  match run_state g (conn_new g v) ops with Some c' => OWN g c' | None => True end.
+Proof. exact fresh_OWNU_invariant. Qed.
+Print Assumptions C08_fresh_ownership_invariant_any_version.
+
 (* so WFpid holds in every state of such a history WITHOUT the exception of C08_WFpid_invariant: the
    unguarded releases of send_stored (oversize stored packets dropped on resume) are releases of
    identifiers in use, because they are identifiers of stored packets *)
@@ -132,8 +152,7 @@ Print Assumptions C08_awaited_in_one_set.
 (* C08_partial: the per-call accounting "released events = ids that turn free" for the calls other
    than the id-management ones and the no-leak-on-close clause are checked by the monitor mon_c08 on
    the implementation's traces (with the in-use set from the hook) and by the projection
-   correspondence; the ownership theorems assume a determined protocol version (an endpoint created
-   as Undetermined adopts one with its first CONNECT). *)
+   correspondence. *)
 
 Example C08_nonvacuous :
   let g := mkCfg RClient 65535 2 in
@@ -173,6 +192,21 @@ Example C08_ownership_nonvacuous :
   own_history_ok g (conn_new g V50) ops /\
   match run_state g (conn_new g V50) ops with
   | Some c' => map k_pid (c_store c') = [2] /\ c_puback c' = [] /\ c_pubrec c' = [2] /\ is_used c' 1 = false /\ is_used c' 2 = true
+  | None => False
+  end.
+Proof. vm_compute. repeat split; try reflexivity; try discriminate; intros; try discriminate. Qed.
+
+(* ... and for a server created with an undetermined version: the CONNECT (protocol level 5, session kept)
+   determines it, then a QoS 1 PUBLISH is stored and sent *)
+Example C08_ownership_undetermined_nonvacuous :
+  let g := mkCfg RServer 65535 2 in
+  let cn := mkPkt 1 V50 0 0 false false [] None 0 0 20 false 0 false 0 None None None (Some 100) None in
+  let ca := mkPkt 2 V50 0 0 false false [] None 0 0 5 true 0 false 0 None None None None None in
+  let pb1 := mkPkt 3 V50 1 1 false false [116] None 0 3 10 false 0 false 0 None None None None None in
+  let ops := [OAcquire; ORelease 1; ORecv [16;13;0;4;77;81;84;84;5;0;0;0;0;0;0] (PROk cn); OSend ca; OAcquire; OSend pb1] in
+  ownu_history_ok g (conn_new g VUndet) ops /\
+  match run_state g (conn_new g VUndet) ops with
+  | Some c' => c_version c' = V50 /\ map k_pid (c_store c') = [1] /\ c_puback c' = [1] /\ is_used c' 1 = true
   | None => False
   end.
 Proof. vm_compute. repeat split; try reflexivity; try discriminate; intros; try discriminate. Qed.
